@@ -1009,6 +1009,9 @@ class Engine:
                 yield from self.index(vs[0], vs[1], st2)
 
     def index(self, o, i, st):
+        if hasattr(o, "pyvc_getitem"):
+            yield from o.pyvc_getitem(self, i, st)
+            return
         ci = conc(i)
         if isinstance(o, (list, tuple)):
             if ci is NotConcrete:
